@@ -19,6 +19,8 @@ func H_C07_bin() {
 		b = vCat(vTLV(0xD0, vCat([]byte{0x84}, b)...), []byte{0x20})
 	case 0xE:
 		b = vCat(vTLV(0xE0, vCat([]byte{0x81, 0x84}, b)...), []byte{0x20})
+	case 0xD1: // a struct whose whole body is symbolic: the field name too (e.g. padding named by an undefined ID)
+		b = vCat(vTLV(0xD0, b...), []byte{0x20})
 	}
 	ok, p := refBinValid(b, 9)
 	vassume(!p.grey && !p.ts)
